@@ -172,6 +172,14 @@ theorem StrandInv.step {s : State} (h : StrandInv s) (hw : WorkerInv s) (st : St
         have hpos : 0 < nIdle s := by have := h.idleLe; omega
         obtain ⟨i, hi, _⟩ := idle_in_cab hw hph hpos
         exact List.ne_nil_of_mem hi
+  | executeF prio cb =>
+    simp only [Tbox.C05.step]
+    split
+    · exact h
+    · rename_i hne
+      refine ⟨h.fixE, h.maxPos, h.idleLe, h.noLoose, fun _ _ e => ?_⟩
+      simp only at e
+      rw [e] at hne; simp at hne
   | cancel id =>
     simp only [Tbox.C05.step]
     split
